@@ -1028,15 +1028,17 @@ theorem scan_getitem_validation (v : SView) (a b : SBound) (i : Int) (sp : List 
 /-- How a bound of the frame slice is read: `None` stays open; an integer below `_FIRST_TIMESTAMP` is a frame index
     as it stands; an integer from `_FIRST_TIMESTAMP` on is looked up in the frame starts / stops; a time string that
     `Timeindex` reads as `ns` is the timestamp `start + ns` (`ns ≥ 0`) or `stop + ns` (`ns < 0`) of the scan's own window,
-    then treated like an integer; a string `Timeindex` rejects is a `RuntimeError`. -/
+    then treated like an integer; a string `Timeindex` rejects is a `RuntimeError`; anything that is neither a number nor a
+    string (a list, …) is an `IndexError`. -/
 theorem scan_bound_resolution (v : SView) (isStart : Bool) :
     v.timeToFrameB isStart .none = .ok none ∧
+    v.timeToFrameB isStart .other = .error .indexError ∧
     (∀ n, n < firstTimestamp → v.timeToFrameB isStart (.num n) = .ok (some n)) ∧
     (∀ t, firstTimestamp ≤ t → v.timeToFrameB isStart (.num t) = .ok (some (v.timeToFrame t isStart))) ∧
     (∀ s, C01.parseTime s = none → v.timeToFrameB isStart (.str s) = .error .runtimeError) ∧
     (∀ s ns, C01.parseTime s = some ns →
       v.timeToFrameB isStart (.str s) = v.timeToFrameB isStart (.num (if ns ≥ 0 then v.tStart + ns else v.tStop + ns))) := by
-  refine ⟨rfl, ?_, ?_, ?_, ?_⟩
+  refine ⟨rfl, rfl, ?_, ?_, ?_, ?_⟩
   · intro n h; simp [SView.timeToFrameB, h]
   · intro t h; have : ¬ t < firstTimestamp := by omega
     simp [SView.timeToFrameB, this]
